@@ -262,3 +262,68 @@ def gen_op(rng, orc, k):
             kind = S.field_kind(S.BY_CHAIN[tuple(orc.cls)], p)
         return ("set", p, S.gen_value(rng, 1, kind))
     return ("get", S.gen_path(rng, orc))
+
+
+# ---- a writer that is cancelled while it waits for the store lock (monitor only) ------------------------------
+def cancel_case(rng, make_store, init):
+    """A: an edit_state block of two parts, suspended between them (it holds the store lock).  B: a writer that has to
+    wait for the lock and is CANCELLED while waiting.  C: another writer, started afterwards.  Then A's block finishes.
+    The cancelled writer has no effect, and the final state is the result of a serial order of A and C.  Returns
+    (failure text or None, facts)."""
+    orc = S.Oracle(init[0])
+    orc.d = copy.deepcopy(init[1])
+    ctr = "n" if init[0] == [0] else "cnt"
+    a = ("edit", [[("add", ctr, rng.choice([1, 2]))], [("add", ctr, rng.choice([5, 7]))]])
+    b = gen_op(rng, orc, rng.choice(["set", "set_state", "edit"]))
+    c = ("set", ctr, rng.choice([100, 200]))
+    box = {}
+
+    async def go():
+        store = make_store()
+        await store.set_state(S.build_obj(init[0], init[1]))
+        gate = asyncio.Event()
+
+        async def run_a():
+            async with store.edit_state() as st:
+                S.apply_edits_real(st, a[1][0])
+                await gate.wait()
+                S.apply_edits_real(st, a[1][1])
+
+        async def run_op(o):
+            if o[0] == "edit":
+                async with store.edit_state() as st:
+                    for part in o[1]:
+                        S.apply_edits_real(st, part)
+            elif o[0] == "set":
+                await store.set(o[1], copy.deepcopy(o[2]))
+            else:
+                await store.set_state(S.build_obj(o[1], o[2]))
+        ta = asyncio.ensure_future(run_a())
+        await vloop.settle()
+        tb = asyncio.ensure_future(run_op(b))
+        await vloop.settle()
+        box["b_waited"] = not tb.done()
+        tb.cancel()
+        await vloop.settle()
+        tc = asyncio.ensure_future(run_op(c))
+        await vloop.settle()
+        box["c_done_inside_a"] = tc.done()
+        gate.set()
+        await vloop.settle()
+        res = await asyncio.gather(ta, tb, tc, return_exceptions=True)
+        box["errors"] = [None if not isinstance(r, BaseException) or isinstance(r, asyncio.CancelledError) else repr(r) for r in res]
+        box["fin"] = S.dump_state(store._state) if hasattr(store, "_state") else S.dump_state(await store.get_state())
+
+    vloop.run(go(), auto=False)
+    outs = [o for _, o in serial_outcomes(init, [a, c])]
+    why = None
+    if not box["b_waited"]:
+        pass          # B did not have to wait (it failed early): nothing to say
+    elif box["c_done_inside_a"]:
+        why = ("a writer started while another task's edit_state block was suspended completed INSIDE that block (the store "
+               "lock was free although the block held it) after a waiting writer had been cancelled")
+    elif any(e for e in box["errors"][0::2]):
+        why = "the edit block or the later writer failed: %s" % box["errors"]
+    elif box["fin"] not in [(list(cl), d) for cl, d in outs] and tuple(box["fin"]) not in [tuple(o) for o in outs]:
+        why = "final state %r is not the result of a serial order of the edit block and the later writer (the cancelled writer has no effect)" % (box["fin"],)
+    return why, dict(a=a, b=b, c=c, waited=box["b_waited"])
